@@ -62,9 +62,15 @@ Definition count_if {A} (f : A -> bool) (l : list A) : Z := zlen (filter f l).
 (** min(1, 2 * min(P(U <= u), P(U >= u))) for the observed u, every assignment equally likely *)
 Definition two_sided (le ge total : Z) : rat := (Z.min total (2 * Z.min le ge), total).
 
+(** the pooled values are listed in ascending order (any listing of the pool
+    gives the same counts; the sorted one makes the pool of (x1, x2) and of
+    (x2, x1) the same list) *)
+Definition split_us (k : nat) (pool : list b64) : list Z :=
+  map (fun cr => two_u (fst cr) (snd cr)) (splits k pool).
+
 Definition perm_p (x1 x2 : list b64) : rat :=
   let u := two_u x1 x2 in
-  let us := map (fun cr => two_u (fst cr) (snd cr)) (splits (length x1) (x1 ++ x2)) in
+  let us := split_us (length x1) (sort_f (x1 ++ x2)) in
   two_sided (count_if (fun v => v <=? u) us) (count_if (fun v => u <=? v) us) (zlen us).
 
 (** the same by dynamic programming over the groups of equal pooled values:
